@@ -202,6 +202,16 @@ def corpus():
                         cs.append(dict(pool=4, reraise=reraise, traits=[t], ops=allops))
     cs.append(dict(pool=4, reraise=True, traits=[dict(base, kind="event", handlers=[False, True])],
                    ops=[["set", 0, 0], ["set", 0, 1], ["set", 0, 3], ["get", 0], ["del", 0]]))
+    # a dynamic default rejected / raising in the validator, with and without the original-value flag
+    # (default_value_for 1885-1899: the failure path must release the default object)
+    for orig in (False, True):
+        for d in (1, 2, 3):
+            for post in ("none", "ok"):
+                for handlers in ([], [False]):
+                    cs.append(dict(pool=4, reraise=False,
+                                   traits=[dict(base, orig=orig, dflt=["call", d], post=post, handlers=handlers)],
+                                   ops=[["get", 0], ["def", 0], ["set", 0, 0], ["get", 0], ["del", 0], ["def", 0],
+                                        ["set", 0, 3], ["del", 0], ["get", 0]]))
     # property traits: plain and validated (setattr_validate_property), setter storing / dropping / raising,
     # getter raising
     for hv in (False, True):
@@ -240,7 +250,9 @@ def ledger_stream(ctx, cases, sanitize=False, tag="ledger"):
                      no_input=True)
             return
         ctx.obligation("no crash in the %s stream%s" % (tag, " (ASan+UBSan)" if sanitize else ""), False, err[-600:])
-        crash_case_report(ctx, cases, tag, rc, err, prog, sanitize)
+        ci = crash_case_report(ctx, cases, tag, rc, err, prog, sanitize)
+        if ci and not tag.endswith("_pre"):
+            ledger_stream(ctx, cases[:ci], sanitize=sanitize, tag=tag + "_pre")
         return
     ctx.obligation("no crash in the %s stream%s" % (tag, " (ASan+UBSan)" if sanitize else ""), True,
                    "%d histories ran to completion" % len(cases))
@@ -434,6 +446,151 @@ def crash_stream(ctx, programs, sanitize=False, tag="api"):
     return crashes
 
 
+
+# ----------------------------------------------------------------------------------------------
+# native stream: C fast validators / containers / delegates with fresh (mortal) objects
+# ----------------------------------------------------------------------------------------------
+NATIVE_DRIVER = "c18_native_driver.py"
+NATIVE_HEADER = "From Coq Require Import ZArith List.\nFrom TV Require Import Common.Harness C18.Model C18.Law."
+
+
+def _P(rnd):
+    return ["p", rnd.randrange(4)]
+
+
+def _tuple2(rnd, mode):
+    """(object, number): mode coerce (int -> float at index 1), keep (already float), reject (bad item at index 1)"""
+    second = {"coerce": ["n", rnd.choice([3, 7, 0])], "keep": ["n", 1.5], "reject": ["s", rnd.randrange(2)],
+              "big": ["b", rnd.randrange(2)]}[mode]
+    return ["t", [_P(rnd), second]]
+
+
+def gen_native_op(rnd):
+    mode = rnd.choice(["coerce", "coerce", "keep", "reject", "big"])
+    x = rnd.random()
+    T = [
+        lambda: ["set", "a", rnd.choice([_P(rnd), ["s", rnd.randrange(2)], ["b", rnd.randrange(2)], _tuple2(rnd, "keep")])],
+        lambda: ["set", "tup", _tuple2(rnd, mode)],
+        lambda: ["set", "tup4", ["t", [_P(rnd), _P(rnd), {"reject": ["s", 0]}.get(mode, ["n", rnd.choice([2, 2.5])]),
+                                      rnd.choice([_P(rnd), ["s", 1]])]]],
+        lambda: ["set", "tint", ["t", [rnd.choice([["n", 3], ["b", 0], ["s", 0]]), _P(rnd)]]],
+        lambda: ["set", "ttup", ["t", [_tuple2(rnd, mode), _P(rnd)]]],
+        lambda: ["set", "eith", rnd.choice([_tuple2(rnd, mode), ["leaf", _P(rnd)], ["n", None], _P(rnd)])],
+        lambda: ["set", "uni", rnd.choice([_tuple2(rnd, mode), ["s", rnd.randrange(2)], ["n", None], _P(rnd)])],
+        lambda: ["set", "inst", rnd.choice([["leaf", _P(rnd)], _P(rnd), ["n", None]])],
+        lambda: ["set", "typ", rnd.choice([["cls"], _P(rnd)])],
+        lambda: ["set", "call", rnd.choice([["fn"], _P(rnd), ["n", None]])],
+        lambda: ["set", "lst", ["l", [_P(rnd) for _ in range(rnd.randint(0, 3))]]],
+        lambda: ["append", "lst", rnd.choice([_P(rnd), ["s", 0], ["b", 1]])],
+        lambda: ["setitem", "lst", _P(rnd)],
+        lambda: ["clear", "lst"],
+        lambda: ["set", "ltup", ["l", [_tuple2(rnd, rnd.choice(["coerce", "keep"])) for _ in range(rnd.randint(0, 2))] +
+                                 ([_tuple2(rnd, "reject")] if mode == "reject" else [])]],
+        lambda: ["append", "ltup", _tuple2(rnd, mode)],
+        lambda: ["set", "dct", ["d", [[_P(rnd), rnd.choice([_P(rnd), ["s", 0]])] for _ in range(rnd.randint(0, 2))]]],
+        lambda: ["setitem", "dct", _P(rnd), 0],
+        lambda: ["clear", "dct"],
+        lambda: ["set", "st", ["set", [_P(rnd) for _ in range(rnd.randint(0, 3))]]],
+        lambda: ["add", "st", rnd.choice([_P(rnd), ["b", 0]])],
+        lambda: ["set", "i", rnd.choice([["b", rnd.randrange(2)], ["n", 5], _P(rnd)])],
+        lambda: ["set", "f", rnd.choice([["b", rnd.randrange(2)], ["n", 5], ["s", 0]])],
+        lambda: ["set", "rng", rnd.choice([["b", rnd.randrange(2)], ["n", 0.5], _P(rnd)])],
+        lambda: ["set", "s", rnd.choice([["s", rnd.randrange(2)], _P(rnd)])],
+        lambda: ["set", "ev", _P(rnd)],
+        lambda: ["set", "evt", _tuple2(rnd, mode)],
+        lambda: ["set", "ro", _P(rnd)],
+        lambda: ["set", "expr", rnd.choice([["s", rnd.randrange(2)], _P(rnd)])],
+        lambda: ["set", "prop", _tuple2(rnd, mode)],
+        lambda: ["get", "prop"],
+        lambda: ["leafset", rnd.choice(["value", "other", "pre_pw", "same"]), rnd.choice([_P(rnd), ["s", 1], ["b", 1]])],
+        lambda: ["get", "d_pfx"], lambda: ["get", "d_pfx"], lambda: ["get", "pw"], lambda: ["get", "pw"],
+        lambda: ["get", "d_set"], lambda: ["set", "d_set", _P(rnd)],
+        lambda: ["get", "same"], lambda: ["set", "same", _P(rnd)],
+        lambda: ["prime", None, rnd.choice([_P(rnd), ["s", rnd.randrange(2)], ["b", 0]])],
+        lambda: ["get", "xdef"], lambda: ["default", "xdef"], lambda: ["del", "xdef"],
+        lambda: ["set", "xdef", rnd.choice([["s", 0], _P(rnd)])],
+        lambda: ["validate", rnd.choice(["tup", "evt", "eith", "uni", "ttup"]), _tuple2(rnd, mode)],
+        lambda: ["validate", "tup4", ["t", [_P(rnd), _P(rnd), ["n", 3], _P(rnd)]]],
+        lambda: ["default", rnd.choice(["a", "lst", "dct", "st", "leaf", "tup"])],
+        lambda: ["get", rnd.choice(["a", "tup", "tup4", "eith", "inst", "lst", "ltup", "dct", "st", "ro", "expr", "ev"])],
+        lambda: ["del", rnd.choice(["a", "tup", "tup4", "eith", "inst", "lst", "dct", "i", "s", "prop", "d_set"])],
+        lambda: ["gc"],
+    ]
+    return rnd.choice(T)()
+
+
+def native_corpus():
+    P0, P1, P2 = ["p", 0], ["p", 1], ["p", 2]
+    return [dict(ops=[
+        ["set", "tup", ["t", [P0, ["n", 3]]]], ["get", "tup"], ["set", "tup", ["t", [P1, ["s", 0]]]],
+        ["set", "tup4", ["t", [P0, P1, ["n", 2], P2]]], ["set", "tup4", ["t", [P0, P1, ["s", 0], P2]]],
+        ["set", "ttup", ["t", [["t", [P0, ["n", 3]]], P1]]], ["validate", "tup", ["t", [P2, ["n", 4]]]],
+        ["set", "eith", ["t", [P0, ["n", 3]]]], ["set", "ltup", ["l", [["t", [P0, ["n", 1]]], ["t", [P1, ["n", 2]]]]]],
+        ["set", "evt", ["t", [P0, ["n", 3]]]], ["set", "prop", ["t", [P0, ["n", 3]]]], ["get", "prop"],
+        ["leafset", "value", P0], ["get", "d_pfx"], ["get", "d_pfx"], ["get", "d_pfx"], ["get", "d_pfx"],
+        ["leafset", "pre_pw", P1], ["get", "pw"], ["get", "pw"],
+        ["prime", None, P2], ["get", "xdef"], ["default", "xdef"], ["set", "xdef", ["s", 0]], ["del", "xdef"],
+        ["get", "xdef"], ["prime", None, ["s", 1]], ["get", "xdef"],
+        ["set", "i", ["b", 0]], ["set", "f", ["b", 1]], ["set", "rng", ["b", 0]], ["set", "s", ["s", 0]],
+        ["set", "dct", ["d", [[P0, P1], [["b", 0], ["s", 1]]]]], ["setitem", "dct", P2, 0], ["clear", "dct"],
+        ["set", "st", ["set", [P0, P1]]], ["add", "st", P2], ["set", "ro", P0], ["set", "ro", P1],
+        ["set", "inst", ["leaf", P0]], ["set", "inst", P0], ["del", "tup"], ["del", "tup4"], ["gc"]])]
+
+
+def native_stream(ctx, cases, sanitize=False, tag="native"):
+    prog = os.path.join(ctx.scratch, "progress_%s.txt" % tag)
+    label = "native stream: reference neutrality of the C validators / containers / delegates with fresh objects%s" % (
+        " (ASan+UBSan)" if sanitize else "")
+    rc, obs, err = ctx.run_driver(NATIVE_DRIVER, dict(cases=cases, progress=prog), sanitize=sanitize)
+    if rc != 0 or obs is None or len(obs) != len(cases):
+        if rc == 124 or (rc == 1 and "Traceback" in err and "Sanitizer" not in err):
+            ctx.obligation(label, False, err[-600:])
+            ctx.fail("harness/" + tag, "native driver failed (rc=%s): %s" % (rc, err[-400:]), dict(error=err[-2000:]),
+                     no_input=True)
+            return
+        ctx.obligation(label + " — no crash", False, err[-600:])
+        ci = crash_case_report(ctx, cases, tag, rc, err, prog, sanitize)
+        if obs is None or len(obs) != len(cases):
+            if ci and not tag.endswith("_pre"):
+                # what the histories before the crashing one show (usually the miscount that leads to the crash)
+                native_stream(ctx, cases[:ci], sanitize=sanitize, tag=tag + "_pre")
+            return
+        # the process died after it had delivered its observations (at interpreter exit): evaluate them as well
+    terms = [[(False, [(a, d, hb, ha) for a, d, hb, ha in st["rows"]]) for st in ob] for ob in obs]
+    try:
+        (law,) = coqrun.eval_cases(ctx.scratch, tag, NATIVE_HEADER, "list C18.Law.nstep", terms,
+                                   ["C18.Law.native_law_codes"], shard=400)
+    except coqrun.CoqError as e:
+        ctx.obligation(label, False, str(e))
+        ctx.fail("harness/" + tag, "native cases could not be evaluated: %s" % e.log[-400:], dict(error=e.log[-2000:]),
+                 no_input=True)
+        return
+    nsteps = 0
+    for c, ob in zip(cases, obs):
+        nsteps += len(ob)
+        ctx.case_seen(json.dumps(c["ops"]), any(any(r[1] for r in st["rows"]) or st["out"] != "Ok" for st in ob))
+        for op, st in zip(c["ops"], ob):
+            ctx.count("native-op:%s%s" % (op[0], "/" + op[1] if len(op) > 1 and isinstance(op[1], str) else ""))
+    ctx.cov["traces_validated_against_impl"] += len(cases)
+    seen = {}
+    for i, code in law:
+        step, clause = code // 100, code % 100
+        op = cases[i]["ops"][step]
+        key = "native-%s/%s-%s/%s" % (CLAUSE.get(clause, clause), op[0], op[1] if len(op) > 1 and op[1] else "",
+                                      obs[i][step]["out"])
+        if key in seen:
+            continue
+        seen[key] = 1
+        bad = [r for r in obs[i][step]["rows"] if r[1] != r[3] - r[2]]
+        # shortest failing prefix is the history itself up to the step
+        rep_case = dict(ops=cases[i]["ops"][:step + 1])
+        ctx.fail(key, "native path: clause %s fails at step %d op %r (outcome %s): (object, refcount delta, held before, "
+                 "held after) = %r; objects 0-3 instances, 4-5 run-time strings, 6-7 big ints, 8-9 delegate prefix strings"
+                 % (CLAUSE.get(clause, clause), step, op, obs[i][step]["out"], bad),
+                 dict(kind="native", case=rep_case, step=step, clause=clause, sanitized=bool(sanitize),
+                      impl_obs=obs[i][:step + 1]))
+    ctx.obligation(label, not law, "%d histories, %d operations; %d failing steps" % (len(cases), nsteps, len(law)))
+
 # ----------------------------------------------------------------------------------------------
 # descriptor stream: the low-level CTrait constructors with malformed descriptors
 # ----------------------------------------------------------------------------------------------
@@ -519,7 +676,9 @@ def run(ctx):
     rnd = random.Random(ctx.seed)
     if ctx.replay:
         rep = json.load(open(ctx.replay))["replay"]
-        if rep.get("kind") == "descriptor":
+        if rep.get("kind") == "native":
+            native_stream(ctx, [rep["case"]], sanitize=bool(rep.get("sanitized")), tag="replay")
+        elif rep.get("kind") == "descriptor":
             rc, out, err = ctx.run_driver(FUZZ_DRIVER, dict(family=rep["family"], seed=rep["seed"], n=rep["n"],
                                                             skip=rep["skip"],
                                                             progress=os.path.join(ctx.scratch, "fuzz_replay.txt")),
@@ -553,11 +712,15 @@ def run(ctx):
     programs = [dict(index=i, seed=rnd.randrange(1 << 30), n=nops) for i in range(npr)]
     crash_stream(ctx, programs)
     descriptor_stream(ctx)
+    nn, nlen = (150, 25) if ctx.tier == "quick" else (3000, 40)
+    ncases = native_corpus() + [dict(ops=[gen_native_op(rnd) for _ in range(rnd.randint(5, nlen))]) for _ in range(nn)]
+    native_stream(ctx, ncases)
     if ctx.tier == "thorough":
         # the same streams on the clang ASan+UBSan build: a report or a dead process is a violation
         ctx.build_impl(sanitize=True)
         crash_stream(ctx, programs, sanitize=True)
         descriptor_stream(ctx, sanitize=True)
+        native_stream(ctx, ncases[:600], sanitize=True, tag="native_asan")
         ctrait_stream(ctx, t3_data, have_gen, sanitize=True, modes=CT_MODES_C18)
         ledger_stream(ctx, cases[:len(corpus())] + cases[-2000:], sanitize=True, tag="ledger_asan")
     if not t3_ok:
